@@ -13111,7 +13111,9 @@ func NewPathAttributeMpReachNLRI(family Family, nlris []PathNLRI, nextHops ...ne
 	case SAFI_FLOW_SPEC_VPN, SAFI_FLOW_SPEC_UNICAST:
 	// Should not have Nexthop
 	case SAFI_MPLS_VPN:
-		l += BGP_ATTR_NHLEN_VPN_RD
+		// Serialize puts a (zero) route distinguisher in front of every
+		// next hop address, the link-local one included
+		l += len(nhs) * BGP_ATTR_NHLEN_VPN_RD
 		fallthrough
 	default:
 		l += nhlen
